@@ -55,7 +55,9 @@ theorem scr_inputOp (cfg : Cfg) (s : AState) (fuel : Nat) : scr (inputOp cfg s f
     simp only [inputOp]
     split
     · split <;> simp [scr]
-    · have h1 := scr_doWrap s.ensureBuf
+    · have h0 : scr s.ensureBuf.eofRestart = scr s := by
+        simp only [AState.eofRestart, scr]; split <;> simp
+      have h1 := (scr_doWrap s.ensureBuf.eofRestart).trans h0
       split
       · rw [ih]; simpa [scr] using h1
       · simpa [scr] using h1
